@@ -29,424 +29,9 @@ using sim::S_CONF;
 using sim::S_FAULT;
 using sim::S_WORK;
 
+#include "pipeline_common.inc"
+
 namespace {
-
-// ------------------------------------------------------------------------------------------------
-// inputs
-
-struct Input {
-    std::string name;      // for the sample rendering
-    std::string suffix;    // file name suffix / format string: osm, osm.gz, opl.bz2, pbf, o5m, osh, ...
-    std::string bytes;
-};
-
-std::vector<Input> g_fixtures;
-
-const char* fixture_list[] = {
-    "t/io/data.osm", "t/io/data.osm.gz", "t/io/data.osm.bz2", "t/io/data.opl", "t/io/data-cr.opl", "t/io/data-nonl.opl",
-    "t/io/data-n5w1r3.osm", "t/io/data-n5w1r3.osm.o5m", "t/io/data-n5w1r3.osm.opl", "t/io/data-n0w1r3.osm.o5m", "t/io/data-n5w0r3.osm.o5m",
-    "t/io/data-n5w1r0.osm.o5m", "t/io/data-n0w1r3.osm.opl", "t/io/data-n5w0r3.osm.opl", "t/io/data-n5w1r0.osm", "t/io/data-n0w1r3.osm",
-    "t/io/data_pbf_version-1.osm.pbf", "t/io/data_pbf_version-1-densenodes.osm.pbf", "t/io/deleted_nodes.osh", "t/io/deleted_nodes.osh.pbf",
-    "examples/t/debug/changesets.osm", "examples/t/filter_discussions/changesets.osm", "examples/t/road_length/road.osm",
-    "t/relations/data.osm", "examples/t/pub_names/pub-way.osm",
-};
-
-std::string suffix_of(const std::string& path) {
-    const auto slash = path.rfind('/');
-    const std::string base = slash == std::string::npos ? path : path.substr(slash + 1);
-    const auto dot = base.find('.');
-    std::string suf = dot == std::string::npos ? std::string{} : base.substr(dot + 1);
-    // "osm.o5m" / "osm.opl" / "osm.pbf" / "osh.pbf": the last components decide
-    for (const char* f : {"o5m", "opl", "pbf"}) {
-        const std::string tail = std::string{"."} + f;
-        if (suf.size() > tail.size() && suf.compare(suf.size() - tail.size(), tail.size(), tail) == 0) {
-            const bool hist = suf.compare(0, 3, "osh") == 0;
-            suf = (hist ? std::string{"osh."} : std::string{"osm."}) + f;
-        }
-    }
-    return suf;
-}
-
-void load_fixtures() {
-    const char* repo = getenv("VERIF_REPO");
-    const std::string root = std::string{repo ? repo : "/repo"} + "/test/";
-    for (const char* rel : fixture_list) {
-        std::ifstream in{root + rel, std::ios::binary};
-        if (!in) { continue; }
-        std::stringstream ss;
-        ss << in.rdbuf();
-        Input i;
-        i.name = rel;
-        i.suffix = suffix_of(rel);
-        i.bytes = ss.str();
-        g_fixtures.push_back(i);
-    }
-}
-
-bool has_prefix(const std::string& s, const char* p) { return s.compare(0, std::strlen(p), p) == 0; }
-bool has_part(const std::string& suffix, const char* part) {
-    return (std::string{"."} + suffix + ".").find(std::string{"."} + part + ".") != std::string::npos;
-}
-bool is_compressed(const std::string& suffix) { return has_part(suffix, "gz") || has_part(suffix, "bz2"); }
-bool is_pbf(const std::string& suffix) { return has_part(suffix, "pbf"); }
-
-std::string format_of(const std::string& suffix) {
-    for (const char* f : {"pbf", "o5m", "o5c", "opl", "osc", "osh", "osm"}) {
-        if (has_part(suffix, f)) {
-            const std::string s = f;
-            if (s == "osc" || s == "osh" || s == "osm") { return "xml"; }
-            if (s == "o5c") { return "o5m"; }
-            return s;
-        }
-    }
-    return "?";
-}
-
-std::string comp_of(const std::string& suffix) {
-    if (has_part(suffix, "gz")) { return "gz"; }
-    if (has_part(suffix, "bz2")) { return "bz2"; }
-    return "none";
-}
-
-std::string demangle(const char* n) {
-    int st = 0;
-    char* d = abi::__cxa_demangle(n, nullptr, nullptr, &st);
-    std::string r = (st == 0 && d) ? d : n;
-    free(d);
-    return r;
-}
-
-// ------------------------------------------------------------------------------------------------
-// writing generated data with libosmium's own Writer (reference conditions, quiet)
-
-std::string write_with_libosmium(const model::Data& d, const std::string& suffix, const std::string& format_options) {
-    const std::string path = "/sim/gen." + suffix;
-    simfs::remove_file(path);
-    std::string result;
-    sim::RunConfig cfg;
-    cfg.preemptive = false;
-    sim::begin_run(cfg);
-    {
-        sim::QuietScope quiet;
-        osmium::thread::Pool pool{1, 10};
-        osmium::io::File file{path, format_options.empty() ? std::string{} : suffix + "," + format_options};
-        osmium::io::Writer writer{file, model::build_header(d), pool, osmium::io::overwrite::allow};
-        const size_t step = 40;
-        for (size_t i = 0; i < d.objs.size();) {
-            size_t next = i;
-            writer(model::build_buffer(d.objs, i, i + step, &next));
-            i = next;
-        }
-        writer.close();
-    }
-    sim::end_run();
-    simfs::get_file(path, &result);
-    simfs::remove_file(path);
-    return result;
-}
-
-struct GenChoice {
-    int format = 0;        // 0 xml 1 opl 2 pbf 3 o5m
-    int compression = 0;   // 0 none 1 gz 2 bz2
-    bool history = false;
-};
-
-Input generate_input(uint32_t max_objects, int order_bias, bool allow_changesets) {
-    static const char* fmt_suffix[] = {"osm", "opl", "pbf", "o5m"};
-    GenChoice g;
-    g.format = static_cast<int>(choose(S_WORK, 4));
-    g.compression = (g.format == 2) ? 0 : static_cast<int>(choose(S_WORK, 3));
-    g.history = choose(S_WORK, 4) == 0;
-    model::Profile p;
-    p.max_objects = max_objects;
-    p.history = g.history;
-    p.changesets = allow_changesets && (g.format == 0 || g.format == 1) && choose(S_WORK, 3) == 0;
-    p.comments = p.changesets && g.format == 0;
-    p.order = order_bias >= 0 ? order_bias : static_cast<int>(choose(S_WORK, 3));
-    p.way_locations = (g.format == 2 || g.format == 0 || g.format == 1) && choose(S_WORK, 4) == 0;
-    p.nasty_strings = choose(S_WORK, 4) != 0;
-    if (g.format == 3) { p.big_ids = false; } // o5m is delta coded: keep id differences inside int64
-    const model::Data d = model::gen_data(p);
-    Input in;
-    std::string suffix = fmt_suffix[g.format];
-    if (g.history && g.format == 0) { suffix = "osh"; }
-    if (g.history && g.format == 1) { suffix = "osh.opl"; }
-    if (g.history && g.format == 2) { suffix = "osh.pbf"; }
-    if (g.history && g.format == 3) { suffix = "o5c"; }
-    if (g.compression == 1) { suffix += ".gz"; }
-    if (g.compression == 2) { suffix += ".bz2"; }
-    in.suffix = suffix;
-    std::string opts;
-    if (g.format == 2) {
-        static const char* dense[] = {"", "pbf_dense_nodes=false"};
-        static const char* comp[] = {"", "pbf_compression=none", "pbf_compression=lz4"};
-        opts = dense[choose(S_WORK, 2)];
-        const char* c = comp[choose(S_WORK, 3)];
-        if (*c) { opts += (opts.empty() ? "" : ","); opts += c; }
-        if (p.way_locations) { opts += (opts.empty() ? "" : ","); opts += "locations_on_ways=true"; }
-    }
-    if ((g.format == 0 || g.format == 1) && p.way_locations) { opts = "locations_on_ways=true"; }
-    if (g.format == 3) {
-        o5m::Options oo;
-        oo.use_string_table = choose(S_WORK, 4) != 0;
-        oo.with_info = choose(S_WORK, 4) != 0;
-        oo.reset_every = choose(S_WORK, 3) == 0 ? 1 + choose(S_WORK, 20) : 0;
-        oo.header_timestamp = choose(S_WORK, 2) != 0;
-        oo.change_file = g.history;
-        oo.end_marker = choose(S_WORK, 4) != 0;
-        std::string raw = o5m::Encoder{oo}.encode(d);
-        if (g.compression != 0) {
-            // compress through libosmium's compressor by writing an OPL-less raw stream is not possible; use zlib/bz2 via a tiny writer run
-            // simpler: keep generated o5m uncompressed
-            in.suffix = g.history ? "o5c" : "o5m";
-        }
-        in.bytes = raw;
-        in.name = "generated o5m (" + std::to_string(d.objs.size()) + " objects)";
-        return in;
-    }
-    in.bytes = write_with_libosmium(d, suffix, opts);
-    in.name = "generated " + suffix + (opts.empty() ? "" : " [" + opts + "]") + " (" + std::to_string(d.objs.size()) + " objects)";
-    return in;
-}
-
-Input pick_input(uint32_t max_objects, int order_bias, uint32_t fixture_one_in, bool allow_changesets = true) {
-    if (!g_fixtures.empty() && fixture_one_in && choose(S_WORK, fixture_one_in) == fixture_one_in - 1) {
-        return g_fixtures[choose(S_WORK, static_cast<uint32_t>(g_fixtures.size()))];
-    }
-    return generate_input(max_objects, order_bias, allow_changesets);
-}
-
-// ------------------------------------------------------------------------------------------------
-// reading
-
-struct ReaderOpts {
-    osmium::osm_entity_bits::type entities = osmium::osm_entity_bits::all;
-    osmium::io::read_meta meta = osmium::io::read_meta::yes;
-    osmium::io::buffers_type buffers = osmium::io::buffers_type::any;
-    bool use_iterator = false;
-    bool from_buffer = false;
-    int pool_threads = 1;
-    size_t pool_queue = 0;
-};
-
-struct Outcome {
-    bool threw = false;
-    std::string where;        // ctor, header, read, close
-    std::string exc_type, exc_what;
-    bool header_ok = false;
-    std::string header;
-    bool multi_version = false;
-    std::vector<model::Rec> objs;
-    std::vector<unsigned> buffer_masks;
-    bool reached_eof = false;
-    bool nonstd_exception = false;
-    bool read_after_eof_throws = true;
-    bool eof_flag_ok = true;
-    int threads_left = 0;
-    size_t fds_left = 0;
-    std::string fd_desc;
-};
-
-template <typename F>
-bool guarded(Outcome& o, const char* where, F&& f) {
-    try {
-        f();
-        return true;
-    } catch (const std::exception& e) {
-        if (!o.threw) {
-            o.threw = true;
-            o.where = where;
-            o.exc_type = demangle(typeid(e).name());
-            o.exc_what = e.what();
-        }
-    } catch (...) {
-        if (!o.threw) {
-            o.threw = true;
-            o.where = where;
-            o.exc_type = "non-std-exception";
-        }
-        o.nonstd_exception = true;
-    }
-    return false;
-}
-
-const char* INPUT_PATH_PREFIX = "/sim/input.";
-
-// read the whole input; everything (pool, reader) is created and destroyed inside
-Outcome read_all(const Input& in, const ReaderOpts& ro) {
-    Outcome o;
-    const std::string path = INPUT_PATH_PREFIX + in.suffix;
-    {
-        osmium::thread::Pool pool{ro.pool_threads, ro.pool_queue};
-        const int base_threads = sim::live_threads();
-        {
-            std::unique_ptr<osmium::io::Reader> reader;
-            const bool ok = guarded(o, "ctor", [&] {
-                if (ro.from_buffer) {
-                    osmium::io::File file{in.bytes.data(), in.bytes.size(), in.suffix};
-                    reader = std::make_unique<osmium::io::Reader>(file, pool, ro.entities, ro.meta, ro.buffers);
-                } else {
-                    osmium::io::File file{path};
-                    reader = std::make_unique<osmium::io::Reader>(file, pool, ro.entities, ro.meta, ro.buffers);
-                }
-            });
-            if (ok) {
-                bool go = guarded(o, "header", [&] {
-                    const osmium::io::Header h = reader->header();
-                    o.header = model::render_header(h);
-                    o.multi_version = h.has_multiple_object_versions();
-                    o.header_ok = true;
-                });
-                if (go) {
-                    if (ro.use_iterator) {
-                        go = guarded(o, "read", [&] {
-                            osmium::io::InputIterator<osmium::io::Reader, osmium::OSMEntity> it{*reader};
-                            const osmium::io::InputIterator<osmium::io::Reader, osmium::OSMEntity> end{};
-                            for (; it != end; ++it) { o.objs.push_back(model::make_rec(*it)); }
-                            o.reached_eof = true;
-                        });
-                    } else {
-                        go = guarded(o, "read", [&] {
-                            while (osmium::memory::Buffer buffer = reader->read()) {
-                                o.buffer_masks.push_back(model::digest_recs(buffer, o.objs));
-                            }
-                            o.reached_eof = true;
-                        });
-                    }
-                }
-                if (go) {
-                    if (!reader->eof()) { o.eof_flag_ok = false; }
-                    // after the end-of-data marker further reads fail rather than produce data
-                    try {
-                        osmium::memory::Buffer b = reader->read();
-                        o.read_after_eof_throws = false;
-                    } catch (const osmium::io_error&) {
-                    } catch (...) {
-                        o.read_after_eof_throws = false;
-                    }
-                }
-                guarded(o, "close", [&] { reader->close(); });
-                if (!reader->eof()) { o.eof_flag_ok = false; }
-            }
-        }
-        o.threads_left = sim::live_threads() - base_threads;
-    }
-    o.fds_left = simfs::open_fd_count();
-    if (o.fds_left) {
-        o.fd_desc = simfs::describe_open_fds();
-        simfs::force_close_all();
-    }
-    return o;
-}
-
-// Buffer-size knobs for runs that do not vary them: the shipped 1 MiB sizes cost a large allocation per
-// Reader under ASan; 64 KiB keeps the same code paths (a run in eight keeps the shipped sizes).
-void default_values(bool shipped) {
-    sim::clear_values();
-    if (!shipped) {
-        sim::set_value("parser_buffer_size", 65536);
-        sim::set_value("input_buffer_size", 65536);
-    }
-}
-
-Outcome reference_read(const Input& in, bool from_buffer) {
-    ReaderOpts ro;
-    ro.from_buffer = from_buffer;
-    ro.pool_threads = 1;
-    sim::clear_env();
-    sim::set_env("OSMIUM_USE_POOL_THREADS_FOR_PBF_PARSING", "no");
-    sim::RunConfig cfg;
-    cfg.preemptive = false;
-    sim::begin_run(cfg);
-    Outcome o;
-    {
-        sim::QuietScope quiet;
-        o = read_all(in, ro);
-    }
-    sim::end_run();
-    sim::clear_env();
-    return o;
-}
-
-std::string exc_class(const Outcome& o) {
-    // stable part of the exception type for signatures
-    std::string t = o.exc_type;
-    const auto p = t.rfind("::");
-    if (p != std::string::npos) { t = t.substr(p + 2); }
-    return t;
-}
-
-std::string io_kind(const Input& in, bool from_buffer) {
-    return format_of(in.suffix) + (comp_of(in.suffix) == "none" ? "" : "." + comp_of(in.suffix)) + (from_buffer ? "/buffer" : "/fd");
-}
-
-// objects of `a` are a prefix of `b` or vice versa
-bool prefix_consistent(const std::vector<model::Rec>& a, const std::vector<model::Rec>& b) {
-    const size_t n = a.size() < b.size() ? a.size() : b.size();
-    for (size_t i = 0; i < n; ++i) {
-        if (a[i] != b[i]) { return false; }
-    }
-    return true;
-}
-
-std::string first_diff(const std::vector<model::Rec>& a, const std::vector<model::Rec>& b) {
-    const size_t n = a.size() < b.size() ? a.size() : b.size();
-    for (size_t i = 0; i < n; ++i) {
-        if (a[i] != b[i]) { return "object #" + std::to_string(i) + ": reference {" + a[i].str().substr(0, 300) + "} run {" + b[i].str().substr(0, 300) + "}"; }
-    }
-    return "reference delivered " + std::to_string(a.size()) + " objects, run delivered " + std::to_string(b.size());
-}
-
-void check_leaks(const char* prop, const Outcome& o, const std::string& kind) {
-    if (o.threads_left != 0) {
-        sim::report("oracle", std::string{prop} + ".leak/thread/" + kind, std::to_string(o.threads_left) + " threads left after the Reader was destroyed");
-    }
-    if (o.fds_left != 0) {
-        sim::report("oracle", std::string{prop} + ".leak/fd/" + kind + (o.threw ? "/after-" + exc_class(o) : "/no-exception"),
-                    std::to_string(o.fds_left) + " file descriptor(s) left open after the Reader was destroyed: " + o.fd_desc);
-    }
-}
-
-std::string sample_json(const Input& in, const std::string& extra) {
-    std::ostringstream s;
-    s << "{\"input\":\"" << in.name << "\",\"suffix\":\"" << in.suffix << "\",\"bytes\":" << in.bytes.size() << extra << "}";
-    return s.str();
-}
-
-void put_input(const Input& in) {
-    simfs::put_file(INPUT_PATH_PREFIX + in.suffix, in.bytes);
-    uint64_t h = 1469598103934665603ULL;
-    for (unsigned char c : in.bytes) { h = (h ^ c) * 1099511628211ULL; }
-    sim::add_to_signature(h); // distinctness: the input bytes are part of the case
-}
-
-void config_buffers() {
-    // small parser buffers so that nested and multiple buffers occur with kilobyte inputs (hook H2)
-    static const unsigned long sizes[] = {0, 0, 65536, 4096, 1024, 256};
-    const unsigned long a = sizes[choose(S_CONF, 6)];
-    const unsigned long b = sizes[choose(S_CONF, 6)];
-    sim::clear_values();
-    if (a) { sim::set_value("parser_buffer_size", a); }
-    if (b) { sim::set_value("pbf_decoder_buffer_size", b); }
-}
-
-void config_queues() {
-    static const char* qs[] = {"", "1", "2", "3", "5", "20"};
-    sim::clear_env();
-    const char* a = qs[choose(S_CONF, 6)];
-    const char* b = qs[choose(S_CONF, 6)];
-    const char* c = qs[choose(S_CONF, 6)];
-    if (*a) { sim::set_env("OSMIUM_MAX_INPUT_QUEUE_SIZE", a); }
-    if (*b) { sim::set_env("OSMIUM_MAX_OSMDATA_QUEUE_SIZE", b); }
-    if (*c) { sim::set_env("OSMIUM_MAX_WORK_QUEUE_SIZE", c); }
-    if (choose(S_CONF, 3) == 0) { sim::set_env("OSMIUM_USE_POOL_THREADS_FOR_PBF_PARSING", choose(S_CONF, 2) ? "no" : "false"); }
-}
-
-int pick_pool_threads() {
-    static const int sizes[] = {1, 2, 3, 4, 8, 16, 32};
-    const uint32_t a = choose(S_CONF, 7), b = choose(S_CONF, 7);
-    return sizes[a < b ? a : b];
-}
 
 // ------------------------------------------------------------------------------------------------
 // C06: parse result independent of chunking
